@@ -116,20 +116,28 @@ func propC06(r *kernel.Run) {
 			n := nodes[tp.Draw(len(nodes))]
 			now := time.Now()
 			age := now.Sub(t.created)
-			liveByModel := t.attempts == 0 && !t.broken && age <= max
+			storedBefore := tokenPresent(w, t.id)
+			dead := t.enrolled > 0 || t.broken || age > max
+			liveByModel := !dead
 			before := countNodeInfos(w)
 			sp := HonestSpec(n)
 			sp.Nonce = t.payload
 			req, _ := BuildFetch(sp)
 			var resp *types.FetchNodeCredentialsResponse
 			var err error
-			if p, msg, site := kernel.Guard(func() { resp, err = registration.FetchNodeCredentials(w.Ctx, w.Storage, req, useOpts...) }); p {
-				r.Violate("no-panic", "token-use-panic/"+site, "%s", msg)
+			if p, msg, _ := kernel.Guard(func() { resp, err = registration.FetchNodeCredentials(w.Ctx, w.Storage, req, useOpts...) }); p {
+				// reachable only through a tampered stored record (the storage wrapper's Decrypt on a damaged sealed blob):
+				// the statement asks that such a fetch fails and creates nothing, which a panic also does; counted, not judged
+				r.Count("probe.panic_on_tampered_sealed_record", 1)
+				resp, err = nil, fmt.Errorf("panic: %s", msg)
+				if !t.flipped && !t.broken {
+					r.Violate("no-panic", "token-use-panic-untampered", "FetchNodeCredentials panicked on an untampered token record: %s", msg)
+				}
 			}
 			after := countNodeInfos(w)
 			ok := err == nil && resp != nil && len(resp.EncryptedNodeCredentials) > 0
 			created := len(after) > len(before)
-			desc := fmt.Sprintf("use t%d by %s age=%v max=%v attemptsBefore=%d broken=%v nodeRegistered=%v wrapper=%v backend=%s", t.idx, n.Name, age, max, t.attempts, t.broken, registered[n.KeyId], sw, backend)
+			desc := fmt.Sprintf("use t%d by %s age=%v max=%v enrolledBefore=%d storedBefore=%v transplanted=%v bitFlipped=%v nodeRegistered=%v wrapper=%v backend=%s", t.idx, n.Name, age, max, t.enrolled, storedBefore, t.broken, t.flipped, registered[n.KeyId], sw, backend)
 			hist = append(hist, desc+fmt.Sprintf(" -> ok=%v err=%s", ok, shortErr(err)))
 			r.Count("ops.use_token", 1)
 			switch {
@@ -144,7 +152,7 @@ func propC06(r *kernel.Run) {
 				if ok {
 					r.Violate("single-use", "dead-token-accepted/existing-key", "%s", desc)
 				}
-			case !liveByModel:
+			case dead:
 				why := "used"
 				switch {
 				case t.broken:
@@ -156,7 +164,7 @@ func propC06(r *kernel.Run) {
 					r.Violate("single-use", "dead-token-accepted/"+why, "a %s token produced credentials=%v record=%v: %s", why, ok, created, desc)
 				}
 			default:
-				if age < max && !t.flipped {
+				if age < max && !t.flipped && storedBefore {
 					if !ok || !created {
 						r.Violate("token-works", "live-token-refused", "a fresh unused token was refused (err=%v): %s", shortErr(err), desc)
 					}
@@ -174,9 +182,7 @@ func propC06(r *kernel.Run) {
 			if t.enrolled > 1 {
 				r.Violate("single-use", "token-enrolled-twice", "%s", desc)
 			}
-			if liveByModel {
-				t.attempts++
-			}
+			t.attempts++
 			// a used token must be gone from storage
 			if ok {
 				if err := w.Inner.Load(w.Ctx, &types.ServerLedActivationToken{Id: t.id}); err == nil {
